@@ -460,6 +460,21 @@ pub fn deviations(base: &Case, max_wits: usize) -> Vec<Dev<Case>> {
     dev!("aux_hash=right", "auxhash", |c: &mut Case| c.tx.aux_hash = HashSpec::Right);
     dev!("aux_hash=wrong", "auxhash", |c: &mut Case| c.tx.aux_hash = HashSpec::Wrong);
 
+    // ---------------------------------------------------------------- wire spellings
+    // Same content, other bytes: the size / fee / hash rules read raw bytes. Each is
+    // kept only where the real decoder accepts it (undecodable cases are counted and skipped).
+    dev!("aux_slot=undefined", "aux", |c: &mut Case| c.tx.spelling.aux_slot_undefined = true);
+    dev!("aux.form=shelley-ma", "auxform", |c: &mut Case| c.tx.aux_form = AuxForm::ShelleyMa);
+    dev!("aux.form=post-alonzo", "auxform", |c: &mut Case| c.tx.aux_form = AuxForm::PostAlonzo);
+    dev!("tx.array=indefinite", "outerform", |c: &mut Case| c.tx.spelling.outer_indef = true);
+    dev!("body.map=indefinite", "bodyform", |c: &mut Case| c.tx.spelling.body_indef = true);
+    dev!("outputs.array=indefinite", "outsform", |c: &mut Case| c.tx.spelling.outputs_indef = true);
+    dev!("fee.width=8", "feewidth", |c: &mut Case| c.tx.spelling.fee_width8 = true);
+    dev!("wits.map=indefinite", "witsform", |c: &mut Case| c.tx.wits.map_indef = true);
+    if era == Era::Conway {
+        dev!("wits.vkeys=tag258", "vkeystag", |c: &mut Case| c.tx.wits.vkeys_tag258 = true);
+    }
+
     // ---------------------------------------------------------------- Alonzo+
     if era.plutus() {
         for mask in 0u8..8 {
